@@ -153,6 +153,9 @@ def do_import(src, sid):
             json.dump(meta, f, indent=1)
         # remember the result of the very first run (before any strengthening of the checks)
         flog = os.path.join(SEEDED, 'FIRST_RUN.json')
+        import fcntl
+        lockf = open(flog + '.lock', 'w')       # imports may run in parallel
+        fcntl.flock(lockf, fcntl.LOCK_EX)
         try:
             with open(flog) as f:
                 first = json.load(f)
